@@ -228,7 +228,7 @@ def run_irrep(ctx, case):
     # matrix input and homomorphism D(U1 U2) = D(U1) D(U2)
     Dm1, Dm2, Dm12 = g.get_su2_irrep(j2, U1), g.get_su2_irrep(j2, U2), g.get_su2_irrep(j2, U1 @ U2)
     sign_ok = (lambda X, Y: min(np.abs(X - Y).max(), np.abs(X + Y).max() if j2 % 2 == 1 else np.inf))
-    ctx.small(sign_ok(Dm1, want), 1e-5, 'D^j(matrix) = D^j(angles) (up to the SU(2) sign for half-integer spin)')
+    ctx.close(Dm1, want, 1e-5, 'D^j(matrix U(angles)) = D^j(angles), sign included')
     # the matrix form resolves the SU(2) sign (gamma in (0,4pi)): D is a representation of SU(2) itself, exactly, also where cos(beta/2) = 0
     ctx.close(Dm12, Dm1 @ Dm2, 1e-5, 'D(U1 U2) = D(U1) D(U2)')
     if j2 == 1:
@@ -255,7 +255,7 @@ def run_irrep(ctx, case):
         ctx.close(Db[0], D1, 1e-12, 'batched irrep = element-wise')
         Ub = np.stack([U1, U2])
         Dmb = g.get_su2_irrep(j2, Ub)
-        ctx.small(min(sign_ok(Dmb[0], Dm1), np.abs(Dmb[0] - Dm1).max()), 1e-9, 'batched matrix input = element-wise')
+        ctx.close(Dmb[0], Dm1, 1e-9, 'batched matrix input = element-wise')
 
 
 def cases_am(tier):
